@@ -46,6 +46,10 @@ pub fn verif_from_utf8(b: &[u8]) -> (r: Result<String, ()>)
 pub fn verif_from_utf8_lossy<'a>(b: &'a [u8]) -> (r: Cow<'a, str>)
     ensures cow_view(&r) == lossy_spec(b@),
 { unimplemented!() }
+#[verifier::external_body]
+pub fn verif_from_utf8_lossy_owned(b: &[u8]) -> (r: String)
+    ensures r@ == lossy_spec(b@),
+{ unimplemented!() }
 /// utils/round_char_boundary.rs floor_char_boundary (copied from std; unsafe): ASSUMED contract - the largest char boundary <= index
 #[verifier::external_body]
 pub fn floor_char_boundary(s: &str, index: usize) -> (r: usize)
@@ -83,6 +87,7 @@ impl<'a> StateMachine<'a> {
     //@| ensures final(self).raw_line@ == ingest_raw_spec(raw_line@, old(self).config),  // @C04,C01,C08,C09,C14,C16:ingest.raw.line.changes.only.by.cr.removal.or.truncation.and.json.lines.are.never.truncated
     //@|         final(self).line@ == strip_spec(final(self).raw_line@),  // @C08:ingest.line.is.the.stripped.raw.line
     //@|         final(self).state == old(self).state && final(self).painter == old(self).painter && final(self).config == old(self).config,
+    //@|         final(self).source == old(self).source && final(self).minus_line_counter == old(self).minus_line_counter,
     //@rewrite <<<ansi::measure_text_width(&self.raw_line[cr_index + 1..])>>> => <<<ansi::measure_text_width(verif_str_from(&self.raw_line, cr_index + 1))>>>
     //@rewrite <<<&self.raw_line[..cr_index],>>> => <<<verif_str_to(&self.raw_line, cr_index),>>>
     //@rewrite <<<&self.raw_line[cr_index + 1..] )>>> => <<<verif_str_from(&self.raw_line, cr_index + 1) )>>>
@@ -92,9 +97,11 @@ impl<'a> StateMachine<'a> {
     // ---- ingest_line: the bytes of an input line; a line that is not valid UTF-8 is decoded lossily
     //@ fn src/delta.rs StateMachine::ingest_line
     //@| ensures final(self).state == old(self).state && final(self).painter == old(self).painter && final(self).config == old(self).config,
+    //@|         final(self).source == old(self).source && final(self).minus_line_counter == old(self).minus_line_counter,
     //@|         utf8_spec(raw_line_bytes@) matches Some(l) ==> final(self).raw_line@ == ingest_raw_spec(l, old(self).config) && final(self).line@ == strip_spec(final(self).raw_line@),
-    //@|         utf8_spec(raw_line_bytes@) is None ==> final(self).raw_line@ == ingest_lossy_spec(lossy_spec(raw_line_bytes@), old(self).config) && final(self).line@ == final(self).raw_line@,  // @C01,C03,C04:a.line.that.is.not.utf8.is.kept.in.full.unless.a.positive.maximum.length.cuts.it
+    //@|         utf8_spec(raw_line_bytes@) is None ==> final(self).raw_line@ == ingest_raw_spec(lossy_spec(raw_line_bytes@), old(self).config) && final(self).line@ == strip_spec(final(self).raw_line@),  // @C01,C03,C04,C08:a.line.that.is.not.utf8.is.treated.like.any.other.once.its.invalid.bytes.are.replaced.shortened.only.with.the.truncation.mark
     //@rewrite <<<String::from_utf8(raw_line_bytes.to_vec())>>> => <<<verif_from_utf8(raw_line_bytes)>>>
+    //@rewrite <<<String::from_utf8_lossy(raw_line_bytes).into_owned()>>> => <<<verif_from_utf8_lossy_owned(raw_line_bytes)>>>
     //@rewrite <<<String::from_utf8_lossy(raw_line_bytes)>>> => <<<verif_from_utf8_lossy(raw_line_bytes)>>>
     //@rewrite <<<raw_line[..truncated_len].to_string()>>> => <<<verif_str_to(&raw_line, truncated_len).to_string()>>>
 }
